@@ -83,8 +83,37 @@ type c07Base struct {
 func (w *W) c07Run(ring *sched.Ring, d c07Doc, nd bool, pol sched.Policy, procs int, avx512 bool, seed uint64, base *c07Base, cs *ev.Case) {
 	runtime.GOMAXPROCS(procs)
 	w.setKernel(avx512)
+	// what the parser object did before this parse (the pipeline's ring, channel and flags live in
+	// it): nothing / a small document on the one-goroutine path / a large valid one / a large one
+	// that stage 2 rejected at its first token (struct-copy reuse keeps the state of the failed call)
+	hist := int(seed % 4)
+	var reuse *simdjson.ParsedJson
+	var held simdjson.ParsedJson
+	if hist != 0 {
+		ring.Reset(sched.Natural, 0)
+		w.JournalText("c07-history", d.name)
+		walk.Guard(func() error {
+			p0, e0 := simdjson.Parse([]byte(`{"warm":["up",1,2.5,null],"small":true}`), nil)
+			if e0 != nil {
+				return nil
+			}
+			reuse = p0
+			switch hist {
+			case 2:
+				if p1, e1 := simdjson.Parse(c07WarmBig, p0); e1 == nil {
+					reuse = p1
+				}
+			case 3:
+				held = *p0
+				simdjson.Parse(c07WarmBad, &held)
+				reuse = &held
+			}
+			return nil
+		})
+		ring.Finish(true)
+	}
 	ring.Reset(pol, seed)
-	cfg := fmt.Sprintf("policy=%s GOMAXPROCS=%d avx512=%v", pol, procs, avx512)
+	cfg := fmt.Sprintf("policy=%s GOMAXPROCS=%d avx512=%v history=%d", pol, procs, avx512, hist)
 	cs.Text = fmt.Sprintf("%s %s", d.name, strings.ReplaceAll(cfg, " ", ","))
 	w.Journal(cs)
 	if w.Skip() {
@@ -94,14 +123,18 @@ func (w *W) c07Run(ring *sched.Ring, d c07Doc, nd bool, pol sched.Policy, procs 
 	var err error
 	perr := walk.Guard(func() error {
 		if nd {
-			pj, err = simdjson.ParseND(d.data, nil)
+			pj, err = simdjson.ParseND(d.data, reuse)
 		} else {
-			pj, err = simdjson.Parse(d.data, nil)
+			pj, err = simdjson.Parse(d.data, reuse)
 		}
 		return nil
 	})
 	w.Eval(1)
+	w.Count(fmt.Sprintf("parses_with_parser_history_%d", hist), 1)
 	key := d.name + "/" + pol.String()
+	if hist != 0 {
+		key += "/reused-parser"
+	}
 	if perr != nil {
 		w.Violation("C07/panic/"+key, fmt.Sprintf("parse panicked under %s: %v", cfg, perr), cs)
 		return
@@ -164,6 +197,11 @@ func (w *W) c07Run(ring *sched.Ring, d c07Doc, nd bool, pol sched.Policy, procs 
 		w.Sample(map[string]interface{}{"doc": d.name, "bytes": len(d.data), "config": cfg, "buffers": sum.Received, "max_live": sum.MaxLive, "min_live": sum.MinLive, "drained": sum.Stage2Exit, "accepted": err == nil})
 	}
 }
+
+// warm-up documents for parser histories: a valid dense document of ~40 index buffers and the same
+// with a bad first token (stage 2 gives up at once while stage 1 has dozens of buffers to go)
+var c07WarmBig = gen.Aperiodic(gen.New(7, "c07warm"), 40*1408*3/2, 2)
+var c07WarmBad = append([]byte("[tru,"), c07WarmBig[1:]...)
 
 func okText(ok bool) string {
 	if ok {
